@@ -205,7 +205,7 @@ _NATIVE_METHODS = {
     bytearray: {"decode", "hex", "index", "find", "append", "extend", "pop", "startswith", "endswith", "reverse", "copy"},
 }
 
-_PURE_STDLIB = {"struct", "bisect", "operator", "math", "re", "itertools", "functools", "string"}
+_PURE_STDLIB = {"struct", "bisect", "operator", "math", "re", "itertools", "functools", "string", "datetime", "textwrap"}
 
 
 def _suppress(*types):
